@@ -83,10 +83,33 @@ type syncWorld struct {
 	// (1: still JSON, one character of the protocol's path changed; 2: the
 	// protocol listed without a path; 3: an empty document)
 	discAlter int
+	// bystander: a second publisher whose first sync sets up its client -
+	// holding the subscriber's client-host lock, its discovery request
+	// unanswered - while the faulty attempt on the first publisher fails
+	bystander      *PubNode
+	startBystander bool
+	holdBystander  bool
+}
+
+// ownHooks drops the hook calls that belong to the bystander's sync.
+func (sw *syncWorld) ownHooks(hs []HookCall) []HookCall {
+	if sw.bystander == nil {
+		return hs
+	}
+	var out []HookCall
+	for _, h := range hs {
+		if h.Peer != sw.bystander.Name {
+			out = append(out, h)
+		}
+	}
+	return out
 }
 
 func (sw *syncWorld) pump() {
 	for _, e := range sw.lst.drain() {
+		if sw.bystander != nil && e.PeerID == sw.bystander.Ident.ID {
+			continue
+		}
 		sw.events = append(sw.events, e)
 		sw.evSteps = append(sw.evSteps, sw.w.R.Step())
 		sw.w.R.Logf("listener", "event cid=%s count=%d err=%v", sw.w.CidName(e.Cid), e.Count, e.Err != nil)
@@ -96,6 +119,9 @@ func (sw *syncWorld) pump() {
 // policy turns the plan into per-request fault specs, on the scheduler
 // goroutine at release time.
 func (sw *syncWorld) policy(q *simkit.ReqRecord) simkit.FaultSpec {
+	if sw.bystander != nil && q.Server == sw.bystander.Name {
+		return simkit.FaultSpec{} // not part of the attempt under test
+	}
 	ord := sw.relOrd
 	sw.relOrd++
 	if sw.discAlter != 0 && strings.HasPrefix(q.Path, "/.well-known/") {
@@ -103,6 +129,7 @@ func (sw *syncWorld) policy(q *simkit.ReqRecord) simkit.FaultSpec {
 		sw.discAlter = 0
 		sw.w.R.Fault(fmt.Sprintf("discovery-document-altered-%d", kind))
 		sw.fired = append(sw.fired, "discovery-altered")
+		sw.startBystander = sw.bystander != nil
 		return simkit.FaultSpec{Kind: simkit.FRewrite, Rewrite: func(b []byte) []byte {
 			switch kind {
 			case 1:
@@ -226,6 +253,7 @@ func (sw *syncWorld) arm(expected []cid.Cid) {
 
 func (sw *syncWorld) disarm() {
 	sw.plans = nil
+	sw.holdBystander = false
 	sw.discAlter = 0
 	sw.sub.FailAt = map[cid.Cid]error{}
 	st := sw.sub.Store
@@ -405,8 +433,33 @@ func runFaultSync(r *simkit.Run, c Cfg, mode string, planner planFunc) {
 	}
 	// run until the attempt's outcome is observable
 	settle := func(a *attempt, explicit bool, ev0 int) string {
-		return r.Loop(simkit.LoopCfg{Custom: w.Net.RequestAction, MaxSteps: 1500,
-			Invariant: sw.pump,
+		return r.Loop(simkit.LoopCfg{MaxSteps: 1500,
+			Custom: func(p *simkit.Parked) *simkit.Action {
+				if q, ok := p.Data.(*simkit.ReqRecord); ok && sw.holdBystander && sw.bystander != nil && q.Server == sw.bystander.Name && strings.HasPrefix(q.Path, "/.well-known/") {
+					// the second publisher is slow to say which protocols
+					// it speaks: its answer comes when nothing else can move
+					for _, o := range r.Enabled() {
+						if oq, ok := o.Data.(*simkit.ReqRecord); ok && oq.Server == q.Server && strings.HasPrefix(oq.Path, "/.well-known/") {
+							continue
+						}
+						return &simkit.Action{Name: "hold " + q.String(), Do: nil}
+					}
+					r.Probe("client-host-lock-held-by-another-publisher's-discovery-while-the-sync-fails")
+				}
+				return w.Net.RequestAction(p)
+			},
+			Invariant: func() {
+				sw.pump()
+				if sw.startBystander {
+					sw.startBystander = false
+					sw.holdBystander = true
+					by := sw.bystander
+					r.Go("bystander", func(t *simkit.Task) {
+						_, err := sub.Sub.SyncAdChain(context.Background(), by.AddrInfo())
+						t.Logf("SyncAdChain(%s) -> err=%v", by.Name, err != nil)
+					})
+				}
+			},
 			Done: func() bool {
 				if explicit {
 					return a.done && len(r.AllParked()) == 0
@@ -434,6 +487,9 @@ func runFaultSync(r *simkit.Run, c Cfg, mode string, planner planFunc) {
 	sw.plans = plans
 	if c.Case < 0 && cfg.discovery && cfg.preSynced == 0 && r.Tape.Chance(1, 3, "discAlter") {
 		sw.discAlter = 1 + r.Tape.Choose(3, "discAlter.kind")
+		if r.Tape.Chance(1, 2, "bystander") {
+			sw.bystander = w.NewPublisher(PubOpts{Name: "P2", NAds: 2, Discovery: true, Hosts: []string{"10.0.0.2:3104"}})
+		}
 	}
 	sw.relOrd = 0
 	sw.arm(expected)
@@ -492,12 +548,12 @@ func runFaultSync(r *simkit.Run, c Cfg, mode string, planner planFunc) {
 			r.Violate(mode+".hookfail", "the block hook signalled failure (FailSync) during a segmented sync, but the sync reported success (latest-sync %s)", w.CidName(sub.Latest(pub)))
 		}
 		r.Probe("sync-survived-fault")
-		c04CheckSuccess(sw, mode, "faulty attempt that nevertheless succeeded", head, expected, sub.HooksSince(hook0), newEv, !cfg.announce)
+		c04CheckSuccess(sw, mode, "faulty attempt that nevertheless succeeded", head, expected, sw.ownHooks(sub.HooksSince(hook0)), newEv, !cfg.announce)
 	}
 	if err := sub.Store.Audit(); err != nil {
 		r.Violate(mode+".audit", "after the faulty attempt (%v): %v", sw.fired, err)
 	}
-	c02Check(sw, mode, failed, req1start, sub.HooksSince(hook0))
+	c02Check(sw, mode, failed, req1start, sw.ownHooks(sub.HooksSince(hook0)))
 
 	// Phase 2: heal, then sync the same head again through the same
 	// subscriber: must succeed and converge to the fault-free result.
@@ -528,7 +584,7 @@ func runFaultSync(r *simkit.Run, c Cfg, mode string, planner planFunc) {
 			}
 			r.Violate(mode+".retry", "publisher healthy again, but the re-announced sync after faults %v fails or is not reported: events=%d err=%v", sw.fired, len(sw.events)-ev1, e)
 		} else {
-			c04CheckSuccess(sw, mode, fmt.Sprintf("retry after heal (faults were %v)", sw.fired), head, expected, sub.HooksSince(hook1), sw.events[ev1:], !cfg.announce)
+			c04CheckSuccess(sw, mode, fmt.Sprintf("retry after heal (faults were %v)", sw.fired), head, expected, sw.ownHooks(sub.HooksSince(hook1)), sw.events[ev1:], !cfg.announce)
 			// only blocks not already verified are fetched again
 			blocks, _, _ := w.BlockRequests(pub, req1)
 			var wantReq []string
